@@ -274,6 +274,21 @@ def _rand_tree(rng, depth, big):
                 b[j] = rng.choice(cand)
         b = sorted(set(b))
         return {"op": rng.choice(["uni", "uni", "cat"]), "ch": [{"op": "leaf", "s": a}, {"op": "leaf", "s": b}]}
+    if rng.random() < 0.06:
+        # the SAME operation with the SAME argument on two different sets that agree in min, max and residues modulo 32
+        # (equal as far as the approximate equality of bit length sets can tell)
+        base = sorted(rng.sample(range(0, 32), rng.randrange(1, 4)))
+        lo, hi = base[0], base[0] + 32 * rng.randrange(3, 6)
+        x = sorted({lo, hi} | {b + 32 * rng.randrange(0, 3) for b in base})
+        y = sorted({lo, hi} | {b + 32 * rng.randrange(0, 3) for b in base})
+        if x == y:
+            y = sorted(set(y) | {lo + 32})
+            x = sorted(set(x) - {lo + 32} | {lo, hi})
+        kind = rng.choice(["pad", "rep", "rng"])
+        arg = rng.choice([2, 3, 4, 8]) if kind == "pad" else rng.randrange(1, 4)
+        mk = (lambda s_: {"op": "pad", "c": {"op": "leaf", "s": s_}, "r": arg}) if kind == "pad" else \
+             (lambda s_: {"op": kind, "c": {"op": "leaf", "s": s_}, "k": arg})
+        return {"op": rng.choice(["uni", "cat"]), "ch": [mk(x), mk(y)]}
     op = rng.choice(["pad", "rep", "rng", "cat", "uni", "rep", "rng"])
     if op == "pad":
         return {"op": "pad", "c": _rand_tree(rng, depth - 1, big), "r": rng.choice([1, 2, 3, 4, 8, 8, 16])}
